@@ -52,7 +52,7 @@ func loopCounter(l *Loop, tm *Termer) (bound *Term, phi *ssa.Phi, ok bool) {
 
 // C20 — experiment protocol.
 func C20(p *Prog, r *Run) {
-	r.Explanation = "Decided on Experiment.Execute by flag-sensitive path search over its SSA control-flow graph (two loops; the observer's nil-ness is tracked along each path): per trial iteration exactly one NewPopulation(start genome, options) before the generation loop, TrialRunStarted exactly once before the first generation, the trial recorded exactly once at e.Trials[run] on every non-error path, TrialRunFinished exactly once on every non-error path and never followed by EpochEvaluated; per generation iteration the context test precedes the evaluation and, on every path after it on which the Done channel was ready, Execute returns Err() of that same context (read after the test) before any further event of the protocol (phis, result variables and result slots resolved along the path), exactly one GenerationEvaluate whose error returns at once, NextEpoch only under !Solved, at most once, its error returned, append-then-EpochEvaluated exactly once in that order, under Solved the iteration leaves the loop; counters run 0,1,… below NumRuns / NumGenerations, tested in the effect-free loop condition (any spelling of the test; the loop condition may additionally test a flag that is raised only under generation.Solved, nothing else), a break out of the generation loop only under Solved; the record handed to the evaluator is allocated or reset in every generation so that its Solved flag is false at the call; every notification is delivered to the observer parameter whenever it is non-nil and, when it is nil, is either not executed or addressed to a substitute whose method body is empty (decided per value that can be the receiver, on the edge that selects it); the errors of GenerationEvaluate / NextEpoch are the value returned on every path after the failing call (phis resolved along the path); the executor selection covers every EpochExecutorType constant and errors when all type tests fail (decided per way the operands of each return can be chosen).; with the options present in the context nothing returns before the trial loop, and every return that leaves the trial loop from its body returns a value that is a non-nil error on the path taken (a nil test of that value passed, or an error by construction); the result holder e.Trials is only ever replaced by make(Trials, <bound of the trial loop>) before the first trial or while nil, a nil holder never reaches the recording store, and the repository's caller of Execute (func main of the root package) hands over no holder or one made from NumRuns of the options in the call's context with no write of NumRuns between the sizing and the call (ordering across function literals by the places where they are started); the values the events carry are identified (recorded trial = trial shown to the observer = trial the generations are appended to, fresh per trial, numbered by the trial counter; record appended and shown = record the evaluator filled, numbered by the generation and trial counters; population evaluated = population turned over = population spawned for the trial; NextEpoch is told the generation counter). Equivalent shapes read as such: a trial variable that is a field of a by-value local struct is that variable; a population kept in such a field or in a local shared with closures is the spawned one when every store to it stores the result of NewPopulation next to the call; the preparation steps of a trial written as a loop over a literal slice of closures, each called once in order and a non-nil error returned at once, are the sequence of those steps (NewPopulation / the executor selection may sit in one step; a step makes no protocol call and writes only captured locals); an executor selection by lookup in a literal map from executor type to constructor is the switch over its keys. Assumption: the observer and NextEpoch do not flip generation.Solved between its two reads. Not decided: what the evaluator, observer and executor do."
+	r.Explanation = "Decided on Experiment.Execute by flag-sensitive path search over its SSA control-flow graph (two loops; the observer's nil-ness is tracked along each path): per trial iteration exactly one NewPopulation(start genome, options) before the generation loop, TrialRunStarted exactly once before the first generation, the trial recorded exactly once at e.Trials[run] on every non-error path, TrialRunFinished exactly once on every non-error path and never followed by EpochEvaluated; per generation iteration the context test precedes the evaluation and, on every path after it on which the Done channel was ready, Execute returns Err() of that same context (read after the test) before any further event of the protocol (phis, result variables and result slots resolved along the path), exactly one GenerationEvaluate whose error returns at once, NextEpoch only under !Solved, at most once, its error returned, append-then-EpochEvaluated exactly once in that order, under Solved the iteration leaves the loop; counters run 0,1,… below NumRuns / NumGenerations, tested in the effect-free loop condition (any spelling of the test; the loop condition may additionally test a flag that is raised only under generation.Solved, nothing else), a break out of the generation loop only under Solved; the record handed to the evaluator is allocated or reset in every generation so that its Solved flag is false at the call; every notification is delivered to the observer parameter whenever it is non-nil and, when it is nil, is either not executed or addressed to a substitute whose method body is empty (decided per value that can be the receiver, on the edge that selects it); the errors of GenerationEvaluate / NextEpoch are the value returned on every path after the failing call (phis resolved along the path); the executor selection covers every EpochExecutorType constant and errors when all type tests fail (decided per way the operands of each return can be chosen).; with the options present in the context nothing returns before the trial loop, and every return that leaves the trial loop from its body returns a value that is a non-nil error on the path taken (a nil test of that value passed, or an error by construction); the result holder e.Trials is only ever replaced by make(Trials, <bound of the trial loop>) before the first trial or while nil, a nil holder never reaches the recording store, and the repository's caller of Execute (func main of the root package) hands over no holder or one made from NumRuns of the options in the call's context with no write of NumRuns between the sizing and the call (ordering across function literals by the places where they are started); the values the events carry are identified (recorded trial = trial shown to the observer = trial the generations are appended to, fresh per trial, numbered by the trial counter; record appended and shown = record the evaluator filled, numbered by the generation and trial counters; population evaluated = population turned over = population spawned for the trial; NextEpoch is told the generation counter). Equivalent shapes read as such: a trial variable that is a field of a by-value local struct is that variable; a population kept in such a field or in a local shared with closures is the spawned one when every store to it stores the result of NewPopulation next to the call; the preparation steps of a trial written as a loop over a literal slice of closures, each called once in order and a non-nil error returned at once, are the sequence of those steps (NewPopulation / the executor selection may sit in one step; a step makes no protocol call and writes only captured locals); an executor selection by lookup in a literal map from executor type to constructor is the switch over its keys (the map a local literal, or a package-level variable that the package initialiser stores once with such a literal and that is only ever looked up anywhere in the program); an edge that leaves the generation loop from its body to a merge point after which, with what is known on the edge, only a Return of Execute can follow (the error returns of a generation loop that lives in a helper whose result the trial loop tests) is an error exit like a direct return, not a break. Err() of a context read where its Done channel was found closed is taken to be non-nil (contract of context.Context). Assumption: the observer and NextEpoch do not flip generation.Solved between its two reads. Not decided: what the evaluator, observer and executor do."
 	ex := p.Func(PkgE, "Experiment.Execute")
 	r.Fn(FuncName(ex))
 	tm := NewTermer(ex)
@@ -150,10 +150,50 @@ func C20(p *Prog, r *Run) {
 		}
 		return cOuter
 	}
+	// Sixth round: an edge that leaves the generation loop from its body towards code of the trial loop is not a break
+	// when nothing of the protocol can follow it: on every feasible path after it (phis and nil tests resolved along the
+	// path with what is known on the edge - the branch outcomes that dominate it, and Err() of the context being non-nil
+	// once its Done channel was found closed) neither loop is entered again, i.e. the path ends in a Return. That is the
+	// form the error returns of the generation loop take when the loop lives in a helper whose result the trial loop
+	// tests (`if err = runGenerations(..); err != nil { return err }`): the helper's `return err` is an edge to the merge
+	// point behind the loop. Such an edge is an error path exactly like an edge that leaves Execute directly; the Returns
+	// it reaches are checked by trial.returns-inside-loop / trial.leaves-loop.failure, what happens on the way by
+	// generation.*.error-stops and generation.ctx.returns-err.
+	cancelErrs := c20CancelErrs(ex)
+	errExitMemo := map[[2]*ssa.BasicBlock]bool{}
+	errExit := func(a, b *ssa.BasicBlock) bool {
+		if !(inner.Blocks[a] && !cInner.R[a] && !inner.Blocks[b] && outer.Blocks[b]) {
+			return false
+		}
+		key := [2]*ssa.BasicBlock{a, b}
+		if v, done := errExitMemo[key]; done {
+			return v
+		}
+		isCancelErr := func(v ssa.Value) bool {
+			for _, c := range cancelErrs {
+				if c20Strip(v) == c {
+					return true
+				}
+			}
+			return false
+		}
+		reenters := false
+		w := &c20RetWalk{P: p, Init: condsAt(a, b), Learn: true, NonNilIf: isCancelErr, StopEdge: func(x, y *ssa.BasicBlock) bool {
+			if y == outer.Header || y == inner.Header {
+				reenters = true
+				return true
+			}
+			return false
+		}}
+		why := w.Run(b, a, 0, func(*ssa.Return, ssa.Value) string { return "" })
+		res := why == "" && !reenters
+		errExitMemo[key] = res
+		return res
+	}
 	iterEnd := func(l *Loop) func(a, b *ssa.BasicBlock) bool {
 		c := modelOf(l)
 		return func(a, b *ssa.BasicBlock) bool {
-			return b == l.Header || (l.Blocks[a] && !c.R[a] && !l.Blocks[b] && outer.Blocks[b])
+			return b == l.Header || (l.Blocks[a] && !c.R[a] && !l.Blocks[b] && outer.Blocks[b] && !errExit(a, b))
 		}
 	}
 	// fromIterStart runs the query from every edge on which an iteration of l starts; first witness wins.
@@ -161,8 +201,9 @@ func C20(p *Prog, r *Run) {
 		c := modelOf(l)
 		userAvoid := q.AvoidEdge
 		q.AvoidEdge = func(a, b *ssa.BasicBlock) bool {
-			// a path that comes back to the loop condition and leaves through it is no longer inside an iteration
-			return c.IsCondExit(a, b) || (userAvoid != nil && userAvoid(a, b))
+			// a path that comes back to the loop condition and leaves through it is no longer inside an iteration;
+			// a path that takes an error exit of the generation loop does not complete an iteration (it cannot come back)
+			return c.IsCondExit(a, b) || errExit(a, b) || (userAvoid != nil && userAvoid(a, b))
 		}
 		for _, e := range c.Starts() {
 			q.StartEdge = e
@@ -484,8 +525,8 @@ func C20(p *Prog, r *Run) {
 		}
 		// a break out of the generation loop is taken only under generation.Solved
 		for _, e := range cInner.BodyExits() {
-			if !outer.Blocks[e[1]] {
-				continue // leaves Execute: error path, see trial.returns-inside-loop
+			if !outer.Blocks[e[1]] || errExit(e[0], e[1]) {
+				continue // leaves Execute (at once, or behind a merge point after which only a Return can follow): error path, see trial.returns-inside-loop
 			}
 			guarded := false
 			for _, g := range condsAt(e[0], e[1]) {
